@@ -1,25 +1,628 @@
-use std::panic::catch_unwind;
+//! C22 — temporal values round-trip through text and parsing is total.
+//!
+//! Real code: `Date/Time/Timestamp::from_str`, `Interval::new`, the `Display` impls,
+//! `Date::new`, `Time::new` — each call under `catch_unwind` (the harness is built with
+//! overflow checks on).  Every case is also sent to the Lean model (Model/Temporal.lean) and
+//! the outcome classes ok(fields) / err / panic are compared.  Direct oracle on the real code:
+//! no call may panic; for every valid value `parse(display(v)) == v`.
+use std::panic::{catch_unwind, AssertUnwindSafe};
 use std::str::FromStr;
-use vibesql_types::{Date, Time, Timestamp, Interval};
+
+use vharness::sx::{hex_str, unhex_str};
+use vharness::*;
+use vibesql_types::{Date, Interval, Time, Timestamp};
+
+#[derive(Clone, Copy, PartialEq, Eq, Debug)]
+enum K {
+    Date,
+    Time,
+    Ts,
+    Interval,
+}
+impl K {
+    fn op(self) -> &'static str {
+        match self {
+            K::Date => "date_parse",
+            K::Time => "time_parse",
+            K::Ts => "ts_parse",
+            K::Interval => "interval",
+        }
+    }
+    fn name(self) -> &'static str {
+        match self {
+            K::Date => "date",
+            K::Time => "time",
+            K::Ts => "timestamp",
+            K::Interval => "interval",
+        }
+    }
+    fn of(s: &str) -> Option<K> {
+        Some(match s {
+            "date" => K::Date,
+            "time" => K::Time,
+            "timestamp" => K::Ts,
+            "interval" => K::Interval,
+            _ => return None,
+        })
+    }
+}
+
+fn interval_nums(i: &Interval) -> (i64, i64, i64) {
+    let d = format!("{:?}", i);
+    let p = d.rfind(", months: ").expect("Interval Debug format");
+    let rest = &d[p + 10..];
+    let (mo, rest) = rest.split_once(", days: ").expect("days");
+    let (da, rest) = rest.split_once(", microseconds: ").expect("microseconds");
+    let us = rest.trim_end_matches(" }").trim_end_matches('}').trim();
+    (mo.trim().parse().unwrap(), da.trim().parse().unwrap(), us.parse().unwrap())
+}
+
+fn date_f(d: &Date) -> String {
+    format!("{} {} {}", d.year, d.month, d.day)
+}
+fn time_f(t: &Time) -> String {
+    format!("{} {} {} {}", t.hour, t.minute, t.second, t.nanosecond)
+}
+
+/// outcome of the real parser in the model's reply syntax
+fn real_parse(k: K, s: &str) -> String {
+    let s2 = s.to_string();
+    let r = catch_unwind(AssertUnwindSafe(move || match k {
+        K::Date => Date::from_str(&s2).map(|d| date_f(&d)).map_err(|_| ()),
+        K::Time => Time::from_str(&s2).map(|t| time_f(&t)).map_err(|_| ()),
+        K::Ts => Timestamp::from_str(&s2).map(|t| format!("{} {}", date_f(&t.date), time_f(&t.time))).map_err(|_| ()),
+        K::Interval => {
+            let i = Interval::new(s2);
+            let (a, b, c) = interval_nums(&i);
+            Ok(format!("{} {} {}", a, b, c))
+        }
+    }));
+    match r {
+        Ok(Ok(f)) => format!("(ok {})", f),
+        Ok(Err(())) => "err".into(),
+        Err(p) => format!("panic: {}", engine::panic_text(p)),
+    }
+}
+
+struct Ctx {
+    model: model::Model,
+    rep: Report,
+}
+
+fn structured(k: K, s: &str) -> bool {
+    match k {
+        K::Date => s.matches('-').count() >= 2,
+        K::Time => s.matches(':').count() == 2,
+        K::Ts => s.matches('-').count() >= 2,
+        K::Interval => s.split_whitespace().count() >= 2,
+    }
+}
+
+/// one totality / correspondence case
+fn parse_case(cx: &mut Ctx, k: K, s: &str, origin: &str) -> String {
+    let real = real_parse(k, s);
+    let reply = cx.model.ask(&format!("{} {}", k.op(), hex_str(s)));
+    let class = if real.starts_with("(ok") { "ok" } else if real == "err" { "err" } else { "panic" };
+    cx.rep.case(&format!("{} {}", k.op(), hex_str(s)), class == "ok" || structured(k, s));
+    cx.rep.count(&format!("{}_{}", k.name(), class));
+    cx.rep.count(&format!("origin_{}", origin));
+    if !s.is_ascii() {
+        cx.rep.count("non_ascii_strings");
+    }
+    let replay = || {
+        format!(
+            "parse {} {}\ntext: {:?}\nreal: {}\nmodel: {}\nre-run: ./check C22 --replay <this file>   |   echo '{} {}' | lean/.lake/build/bin/drv_c22",
+            k.name(), hex_str(s), s, real, reply, k.op(), hex_str(s)
+        )
+    };
+    if class == "panic" {
+        cx.rep.fail(FailKind::Oracle, None, &format!("{} parser panicked ({})", k.name(), real.chars().take(80).collect::<String>()), &replay());
+    }
+    cx.rep.traces_validated += 1;
+    let real_norm = if class == "panic" { "panic".to_string() } else { real.clone() };
+    if real_norm != reply {
+        cx.rep.fail(FailKind::ModelDiff, None, &format!("{} parser and model disagree (real {}, model {})", k.name(), class, reply.split(' ').next().unwrap_or("").trim_start_matches('(')), &replay());
+    }
+    real
+}
+
+fn show_model(cx: &mut Ctx, req: &str) -> Option<String> {
+    let r = cx.model.ask(req);
+    match Sx::parse(&r) {
+        Some(Sx::List(v)) if v.len() == 2 && v[0].as_atom() == Some("s") => v[1].as_atom().and_then(unhex_str),
+        _ => None,
+    }
+}
+
+fn rt_fail(cx: &mut Ctx, kind: FailKind, what: &str, detail: String) {
+    cx.rep.fail(kind, None, what, &detail);
+}
+
+fn date_roundtrip(cx: &mut Ctx, y: i32, m: u8, d: u8) {
+    let newr = catch_unwind(|| Date::new(y, m, d));
+    let mnew = cx.model.ask(&format!("date_new {} {} {}", y, m, d));
+    let real_new = match &newr {
+        Ok(Ok(v)) => format!("(ok {})", date_f(v)),
+        Ok(Err(_)) => "err".into(),
+        Err(_) => "panic".into(),
+    };
+    cx.rep.case(&format!("date_rt {} {} {}", y, m, d), true);
+    cx.rep.count(if real_new == "err" { "date_new_rejected" } else { "date_new_accepted" });
+    if real_new != mnew {
+        rt_fail(cx, FailKind::ModelDiff, "Date::new and model disagree", format!("Date::new({}, {}, {})\nreal: {}\nmodel: {}", y, m, d, real_new, mnew));
+    }
+    let v = match newr {
+        Ok(Ok(v)) => v,
+        Ok(Err(_)) => return,
+        Err(_) => {
+            rt_fail(cx, FailKind::Oracle, "Date::new panicked", format!("Date::new({}, {}, {})", y, m, d));
+            return;
+        }
+    };
+    let text = v.to_string();
+    let back = real_parse(K::Date, &text);
+    if back != format!("(ok {})", date_f(&v)) {
+        rt_fail(cx, FailKind::Oracle, "DATE does not round-trip through its text", format!("Date::new({}, {}, {}) displays as {:?}\nparse {} {}\nfrom_str gives: {}", y, m, d, text, "date", hex_str(&text), back));
+    }
+    cx.rep.traces_validated += 1;
+    match show_model(cx, &format!("date_show {} {} {}", y, m, d)) {
+        Some(t) if t == text => {}
+        other => rt_fail(cx, FailKind::ModelDiff, "Date Display and model disagree", format!("Date({}, {}, {})\nreal: {:?}\nmodel: {:?}", y, m, d, text, other)),
+    }
+    parse_case(cx, K::Date, &text, "roundtrip");
+}
+
+fn time_roundtrip(cx: &mut Ctx, h: u8, mi: u8, s: u8, n: u32) {
+    let newr = catch_unwind(|| Time::new(h, mi, s, n));
+    let mnew = cx.model.ask(&format!("time_new {} {} {} {}", h, mi, s, n));
+    let real_new = match &newr {
+        Ok(Ok(v)) => format!("(ok {})", time_f(v)),
+        Ok(Err(_)) => "err".into(),
+        Err(_) => "panic".into(),
+    };
+    cx.rep.case(&format!("time_rt {} {} {} {}", h, mi, s, n), true);
+    cx.rep.count(if real_new == "err" { "time_new_rejected" } else { "time_new_accepted" });
+    if real_new != mnew {
+        rt_fail(cx, FailKind::ModelDiff, "Time::new and model disagree", format!("Time::new({}, {}, {}, {})\nreal: {}\nmodel: {}", h, mi, s, n, real_new, mnew));
+    }
+    let v = match newr {
+        Ok(Ok(v)) => v,
+        _ => return,
+    };
+    let text = v.to_string();
+    let back = real_parse(K::Time, &text);
+    if back != format!("(ok {})", time_f(&v)) {
+        rt_fail(cx, FailKind::Oracle, "TIME does not round-trip through its text", format!("Time::new({}, {}, {}, {}) displays as {:?}\nparse {} {}\nfrom_str gives: {}", h, mi, s, n, text, "time", hex_str(&text), back));
+    }
+    cx.rep.traces_validated += 1;
+    match show_model(cx, &format!("time_show {} {} {} {}", h, mi, s, n)) {
+        Some(t) if t == text => {}
+        other => rt_fail(cx, FailKind::ModelDiff, "Time Display and model disagree", format!("Time({}, {}, {}, {})\nreal: {:?}\nmodel: {:?}", h, mi, s, n, text, other)),
+    }
+    parse_case(cx, K::Time, &text, "roundtrip");
+}
+
+fn ts_roundtrip(cx: &mut Ctx, d: (i32, u8, u8), t: (u8, u8, u8, u32)) {
+    let (date, time) = match (Date::new(d.0, d.1, d.2), Time::new(t.0, t.1, t.2, t.3)) {
+        (Ok(a), Ok(b)) => (a, b),
+        _ => return,
+    };
+    let v = Timestamp::new(date, time);
+    let text = v.to_string();
+    cx.rep.case(&format!("ts_rt {:?} {:?}", d, t), true);
+    cx.rep.count("timestamp_roundtrips");
+    let want = format!("(ok {} {})", date_f(&date), time_f(&time));
+    let back = real_parse(K::Ts, &text);
+    if back != want {
+        rt_fail(cx, FailKind::Oracle, "TIMESTAMP does not round-trip through its text", format!("Timestamp {:?} {:?} displays as {:?}\nparse {} {}\nfrom_str gives: {}", d, t, text, "timestamp", hex_str(&text), back));
+    }
+    cx.rep.traces_validated += 1;
+    match show_model(cx, &format!("ts_show {} {} {} {} {} {} {}", d.0, d.1, d.2, t.0, t.1, t.2, t.3)) {
+        Some(x) if x == text => {}
+        other => rt_fail(cx, FailKind::ModelDiff, "Timestamp Display and model disagree", format!("{:?} {:?}\nreal: {:?}\nmodel: {:?}", d, t, text, other)),
+    }
+    parse_case(cx, K::Ts, &text, "roundtrip");
+    // the ISO 'T' form and a timezone suffix must give the same value
+    for alt in [text.replacen(' ', "T", 1), format!("{}Z", text), format!("{}+05:30", text), format!("  {}\t", text), format!("{}-0800", text)] {
+        let got = parse_case(cx, K::Ts, &alt, "roundtrip_variant");
+        if got != want {
+            rt_fail(cx, FailKind::Oracle, "an equivalent spelling of a TIMESTAMP text parses differently", format!("parse timestamp {}\ntext {:?}\nexpected {}\ngot {}", hex_str(&alt), alt, want, got));
+        }
+    }
+}
+
+fn interval_roundtrip(cx: &mut Ctx, text: &str) {
+    let t2 = text.to_string();
+    let r = catch_unwind(AssertUnwindSafe(move || {
+        let i = Interval::new(t2);
+        let shown = i.to_string();
+        let j = Interval::new(shown.clone());
+        (interval_nums(&i), shown, interval_nums(&j), i == j, Interval::from_str(&i.value).map(|k| interval_nums(&k)).ok())
+    }));
+    cx.rep.case(&format!("interval_rt {}", hex_str(text)), true);
+    cx.rep.count("interval_roundtrips");
+    match r {
+        Ok((a, shown, b, eq, c)) => {
+            if a != b || shown != text || !eq || c != Some(a) {
+                rt_fail(cx, FailKind::Oracle, "INTERVAL does not round-trip through its text", format!("parse interval {}\ntext {:?}\nnew: {:?} display: {:?} reparsed: {:?} from_str: {:?} ==: {}", hex_str(text), text, a, shown, b, c, eq));
+            }
+        }
+        Err(p) => rt_fail(cx, FailKind::Oracle, "Interval::new / Display panicked", format!("parse interval {}\ntext {:?}\npanic: {}", hex_str(text), text, engine::panic_text(p))),
+    }
+    parse_case(cx, K::Interval, text, "roundtrip");
+}
+
+// ---------------------------------------------------------------- generators
+
+const ODD: &[&str] = &[
+    "", "-", "+", "+5", "-5", "--5", "+-5", "05", "005", "0", "00", "é", "éé", "ééééé", "aéééé", "a", "x1", "1x", " ", "\t", "\u{2003}", "\u{85}",
+    "\u{3000}", "١", "٣", "１", "255", "256", "999", "2147483647", "2147483648", "-2147483648", "-2147483649", "4294967295", "4294967296",
+    "9223372036854775807", "9223372036854775808", "-9223372036854775808", "99999999999999999999", "000000000000000000000000001", "1.5", ".", "..", ":", "::",
+    "Z", "z", "T", "+05:00", "-05:00", "+0530", "+05", "+aé:b", "+é:ab", "12:00", "999999999", "1000000000", "123456789", "1234567890", "ſ", "ı", "ß", "ﬆ",
+];
+
+fn mutate_field(r: &mut Rng, f: &str) -> (String, &'static str) {
+    match r.below(9) {
+        0 => (r.pick(ODD).to_string(), "odd_token"),
+        1 => (format!("{}{}", r.pick(&["+", "-", " ", "é", "0", "\u{2003}"]), f), "prefix"),
+        2 => (format!("{}{}", f, r.pick(&["+", "-", " ", "é", "0", "Z", "\u{3000}", "ééééé"])), "suffix"),
+        3 => ("9".repeat(r.range(1, 25) as usize), "long_digits"),
+        4 => (String::new(), "empty"),
+        5 => (format!("{}", r.next() as i64), "random_i64"),
+        6 => (format!("{}", r.range(-300, 300)), "small_int"),
+        7 => {
+            let mut cs: Vec<char> = f.chars().collect();
+            if !cs.is_empty() {
+                let i = r.below(cs.len() as u64) as usize;
+                cs[i] = *r.pick(&['é', 'a', '-', ':', '.', ' ', '+', '９', '\u{80}', 'ſ']);
+            }
+            (cs.into_iter().collect(), "char_replaced")
+        }
+        _ => (f.to_string(), "kept"),
+    }
+}
+
+fn gen_date(r: &mut Rng) -> Vec<String> {
+    let y = match r.below(4) {
+        0 => r.range(1990, 2030),
+        1 => r.range(-20000, 20000),
+        2 => r.next() as i32 as i64,
+        _ => r.range(0, 9999),
+    };
+    let m = if r.chance(4, 5) { r.range(1, 12) } else { r.range(0, 300) };
+    let d = if r.chance(4, 5) { r.range(1, 31) } else { r.range(0, 300) };
+    let w = *r.pick(&[1usize, 2, 2, 2, 3]);
+    vec![format!("{:04}", y), format!("{:0w$}", m, w = w), format!("{:0w$}", d, w = w)]
+}
+fn gen_time(r: &mut Rng) -> (Vec<String>, Option<String>) {
+    let h = if r.chance(4, 5) { r.range(0, 23) } else { r.range(0, 300) };
+    let mi = if r.chance(4, 5) { r.range(0, 59) } else { r.range(0, 300) };
+    let s = if r.chance(4, 5) { r.range(0, 59) } else { r.range(0, 300) };
+    let frac = if r.chance(1, 2) {
+        let n = r.range(0, 12) as usize;
+        Some((0..n).map(|_| char::from(b'0' + r.below(10) as u8)).collect::<String>())
+    } else {
+        None
+    };
+    (vec![format!("{:02}", h), format!("{:02}", mi), format!("{:02}", s)], frac)
+}
+
+fn build(r: &mut Rng, k: K) -> (String, String) {
+    // returns (text, mutation kind)
+    let mut kind = "valid_shape".to_string();
+    let mutate = r.chance(3, 5);
+    match k {
+        K::Date => {
+            let mut f = gen_date(r);
+            if mutate {
+                let i = r.below(3) as usize;
+                let (n, mk) = mutate_field(r, &f[i]);
+                f[i] = n;
+                kind = mk.into();
+            }
+            let sep = if r.chance(1, 12) { *r.pick(&["/", "--", " ", "−"]) } else { "-" };
+            (f.join(sep), kind)
+        }
+        K::Time => {
+            let (mut f, mut frac) = gen_time(r);
+            if mutate {
+                let i = r.below(4) as usize;
+                if i < 3 {
+                    let (n, mk) = mutate_field(r, &f[i]);
+                    f[i] = n;
+                    kind = mk.into();
+                } else {
+                    let (n, mk) = mutate_field(r, frac.as_deref().unwrap_or("5"));
+                    frac = Some(n);
+                    kind = format!("frac_{}", mk);
+                }
+            }
+            let mut s = f.join(if r.chance(1, 15) { "." } else { ":" });
+            if let Some(fr) = frac {
+                s.push('.');
+                s.push_str(&fr);
+            }
+            (s, kind)
+        }
+        K::Ts => {
+            let (d, _) = build(r, K::Date);
+            let (t, tk) = build(r, K::Time);
+            let sep = *r.pick(&[" ", " ", "T", "T", "  ", "\t", "\u{2003}", "t", ""]);
+            let tz_pool = ["", "", "Z", "z", "+05:00", "-08:00", "+0530", "-08", "+5", "+05:0", "+aé:b", "+é:ab", "+ab:é", "+12:34:56", "-é", "+１２:００", " +05:00", "+05:00 "];
+            let mut tz = r.pick(&tz_pool).to_string();
+            if r.chance(1, 6) {
+                let (n, _) = mutate_field(r, "+05:00");
+                tz = n;
+            }
+            let pad_l = if r.chance(1, 8) { *r.pick(&[" ", "\u{85}", "\u{3000}\t", "\n"]) } else { "" };
+            let pad_r = if r.chance(1, 8) { *r.pick(&[" ", "\u{a0}", "\u{2028}", "\r\n"]) } else { "" };
+            let body = if r.chance(1, 8) { d.clone() } else { format!("{}{}{}{}", d, sep, t, tz) };
+            (format!("{}{}{}", pad_l, body, pad_r), format!("ts_{}", tk))
+        }
+        K::Interval => {
+            let units = [
+                "YEAR", "YEARS", "MONTH", "MONTHS", "DAY", "DAYS", "HOUR", "HOURS", "MINUTE", "MINUTES", "SECOND", "SECONDS", "year", "Month", "dAy", "ſECOND", "mınute",
+                "MıNUTES", "ſeconds", "SECONDß", "WEEK", "", "TO", "ＤＡＹ", "DAY\u{301}",
+            ];
+            let num = |r: &mut Rng| -> String {
+                match r.below(8) {
+                    0 => r.range(-50, 400).to_string(),
+                    1 => (r.next() as i64).to_string(),
+                    2 => (r.next() as i32).to_string(),
+                    3 => format!("{}.{}", r.range(-5, 100), r.below(10_000_000)),
+                    4 => r.pick(ODD).to_string(),
+                    5 => r.pick(&["178956970", "178956971", "-178956971", "2562047788015", "2562047788016", "153722867280912", "153722867280913", "9223372036854", "9223372036855", "-9223372036855"]).to_string(),
+                    6 => format!("{}.{}", r.pick(&["9223372036854", "-9223372036854", "0", "", "x"]), r.pick(&["775807", "775808", "9", "é", "aéééé", "ééé", "", "-5", "+5", "1234567"])),
+                    _ => r.range(0, 99).to_string(),
+                }
+            };
+            let sp = |r: &mut Rng| -> &'static str {
+                if r.chance(1, 10) {
+                    *r.pick(&["  ", "\t", "\u{2003}", "\u{85}", "\u{3000}", "\u{a0}", "", "\u{200b}"])
+                } else {
+                    " "
+                }
+            };
+            let text = match r.below(6) {
+                0 | 1 => format!("{}{}{}", num(r), sp(r), r.pick(&units)),
+                2 => {
+                    let v = if r.chance(1, 2) { format!("{}-{}", num(r), num(r)) } else { num(r) };
+                    format!("{}{}{}{}{}{}{}", v, sp(r), r.pick(&["YEAR", "year", "DAY", "MONTH"]), sp(r), r.pick(&["TO", "to", "To", "T0"]), sp(r), r.pick(&["MONTH", "month", "YEAR", ""]))
+                }
+                3 => {
+                    let t = format!("{}:{}:{}", num(r), num(r), num(r));
+                    let t = if r.chance(1, 3) { t.replacen(':', "", r.below(2) as usize + 1) } else { t };
+                    format!("{}{}{}{}{}{}{}", t, sp(r), r.pick(&["HOUR", "MINUTE", "SECOND", "hour", "DAY"]), sp(r), "TO", sp(r), r.pick(&["SECOND", "MINUTE", ""]))
+                }
+                4 => format!("{}{}{}:{}:{}{}DAY{}TO{}{}", num(r), sp(r), num(r), num(r), num(r), sp(r), sp(r), sp(r), r.pick(&["SECOND", "HOUR"])),
+                _ => {
+                    // word soup around TO
+                    let n = r.below(5);
+                    let words = ["TO", "to", "1", "YEAR", "MONTH", "DAY", "5-3", "x", "é", "HOUR", "1:2:3"];
+                    (0..n).map(|_| r.pick(&words).to_string()).collect::<Vec<_>>().join(sp(r))
+                }
+            };
+            (text, "interval_shape".into())
+        }
+    }
+}
+
+fn random_soup(r: &mut Rng) -> String {
+    let alpha: Vec<char> = "0123456789-:.+ TZtz \u{2003}\u{85}\u{3000}\t\néaſıDAYEROMNTHUSC９٣\u{10ffff}\u{80}".chars().collect();
+    let n = r.below(24);
+    (0..n).map(|_| *r.pick(&alpha)).collect()
+}
+
 fn main() {
-    vharness::engine::silence_panics();
-    for s in ["12:00:00.aéééé", "12:00:00.ééééé", "12:00:00.é"] {
-        let r = catch_unwind(|| Time::from_str(s));
-        println!("time {:?} -> {:?}", s, r.map_err(|e| vharness::engine::panic_text(e)));
+    let args = Args::parse("C22");
+    engine::silence_panics();
+    let rep = Report::new(
+        &args,
+        "round-trip case: a value accepted by Date::new / Time::new (or an Interval built from text) is displayed and re-parsed; parse case: the string yields a value, or has the separator structure of its type so that at least one field parser runs",
+    );
+    let model = args.model();
+    let mut cx = Ctx { model, rep };
+    let mut rng = Rng::new(args.seed);
+
+    if let Some(path) = &args.replay {
+        let text = std::fs::read_to_string(path).unwrap_or_default();
+        for l in text.lines() {
+            let w: Vec<&str> = l.split_whitespace().collect();
+            if w.len() == 3 && w[0] == "parse" {
+                if let (Some(k), Some(s)) = (K::of(w[1]), unhex_str(w[2])) {
+                    let real = parse_case(&mut cx, k, &s, "replay");
+                    println!("replay {} {:?} -> real {}", k.name(), s, real);
+                    if k == K::Interval {
+                        interval_roundtrip(&mut cx, &s);
+                    }
+                }
+            }
+        }
+        std::process::exit(cx.rep.finish());
     }
-    for s in ["2024-01-01 00:00:00+aé:b", "2024-01-01 00:00:00+é:ab", "2024-01-01 00:00:00+ab:é"] {
-        let r = catch_unwind(|| Timestamp::from_str(s));
-        println!("ts {:?} -> {:?}", s, r.map_err(|e| vharness::engine::panic_text(e)));
+
+    // ------------------------------------------------------------ deterministic probes
+    // strings that made the parsers panic before the repairs (de528fa2, 0606ba2f), and the
+    // negative-year text that Date's own Display prints (d3639607)
+    let regress: &[(K, &str)] = &[
+        (K::Time, "12:00:00.ééééé"),
+        (K::Time, "12:00:00.aéééé"),
+        (K::Time, "12:00:00.\u{10ffff}\u{10ffff}\u{10ffff}"),
+        (K::Ts, "2024-01-01 00:00:00+aé:b"),
+        (K::Ts, "2024-01-01 00:00:00+é:ab"),
+        (K::Ts, "2024-01-01 00:00:00-12:é"),
+        (K::Ts, "2024-01-01T00:00:00.ééééé"),
+        (K::Interval, "1.aéééé SECOND"),
+        (K::Interval, "1:2:3.aéééé HOUR TO SECOND"),
+        (K::Interval, "999999999 YEAR"),
+        (K::Interval, "-999999999 YEARS"),
+        (K::Interval, "9223372036854 HOUR"),
+        (K::Interval, "9223372036854775807 MINUTE"),
+        (K::Interval, "9223372036854775807 SECOND"),
+        (K::Interval, "9223372036854.9 SECOND"),
+        (K::Interval, "-9223372036855.0 SECOND"),
+        (K::Interval, "999999999-1 YEAR TO MONTH"),
+        (K::Interval, "178956970-8 YEAR TO MONTH"),
+        (K::Interval, "-178956970--9 YEAR TO MONTH"),
+        (K::Interval, "2562047788015:0:0 HOUR TO SECOND"),
+        (K::Interval, "2562047788015:153722867280:9223372036854 HOUR TO SECOND"),
+        (K::Interval, "1 YEAR TO"),
+        (K::Interval, "1 2 TO"),
+        (K::Interval, "TO"),
+        (K::Interval, "1 TO MONTH"),
+        (K::Interval, "1 ſECOND"),
+        (K::Interval, "1 mınute"),
+        (K::Interval, "1 SECONDß"),
+        (K::Interval, "1\u{2003}DAY"),
+        (K::Interval, "1\u{200b}DAY"),
+        (K::Date, "-005-01-01"),
+        (K::Date, "-2147483648-12-31"),
+        (K::Date, "2024-01-01-05"),
+        (K::Date, "--5-01-01"),
+        (K::Ts, "-005-01-01 00:00:00"),
+        (K::Ts, "2024-01-01-05:00"),
+        (K::Ts, "Z"),
+        (K::Ts, ""),
+        (K::Ts, "+05:00"),
+        (K::Ts, "2024-01-01 1:2:3+0"),
+    ];
+    for (k, s) in regress {
+        let real = parse_case(&mut cx, *k, s, "regression_probe");
+        cx.rep.sample(serde_json::json!({"kind": k.name(), "text": s, "real": real}));
     }
-    for s in ["1.aéééé SECOND", "1.ééé SECOND", "999999999 YEAR", "9223372036854 HOUR", "1 YEAR TO", "1 TO", "1-1 YEAR TO MONTH", "999999999-1 YEAR TO MONTH","178956970-8 YEAR TO MONTH", "9223372036854775807 SECOND", "9223372036854 MINUTE", "1 2562047788015:0:0 DAY TO SECOND", "2562047788015:0:0 HOUR TO SECOND", "2562047788015:153722867280:9223372036854 HOUR TO SECOND", "1 ſECOND", "1 mınute", "9223372036854.9 SECOND", "-9223372036854.9 SECOND", "-9223372036855.0 SECOND"] {
-        let s2 = s.to_string();
-        let r = catch_unwind(move || format!("{:?}", Interval::new(s2)));
-        println!("iv {:?} -> {:?}", s, r.map_err(|e| vharness::engine::panic_text(e)));
+    // documented formats
+    for s in ["2024-01-01", "0001-01-01", "9999-12-31", "2024-1-1", "+2024-01-01", "2024-13-01", "2024-00-10", "2024-01-32"] {
+        parse_case(&mut cx, K::Date, s, "corpus");
     }
-    println!("{}", Date::new(-5,1,1).unwrap());
-    println!("{:?}", Date::from_str("-005-01-01"));
-    println!("{:?}", "+5".parse::<u8>());
-    println!("{:?}", "-0".parse::<u8>());
-    println!("{:?} {:?}", "-0".parse::<i32>(), "+".parse::<i32>());
-    println!("{:?}", format!("{:04}|{:04}|{:02}", -5, i32::MIN, 7u8));
+    for s in ["14:30:00", "14:30:00.123", "14:30:00.123456789", "14:30:00.1234567891", "24:00:00", "23:60:00", "23:59:60", "1:2:3", "+1:+2:+3", "14:30", "14:30:00.", "14.30.00"] {
+        parse_case(&mut cx, K::Time, s, "corpus");
+    }
+    for s in [
+        "2024-01-01T14:30:00", "2024-01-01T14:30:00.123456", "2024-01-01 14:30:00", "2024-01-01 14:30:00.123456", "2024-01-01T14:30:00Z", "2024-01-01T14:30:00+05:00",
+        "2024-01-01T14:30:00-0500", "2024-01-01T14:30:00-05", "2024-01-01", "2025-11-10T08:24:34", " 2025-11-10 08:24:34 ", "2024-01-01t14:30:00", "2024-01-01 14:30:00 +05:00",
+    ] {
+        parse_case(&mut cx, K::Ts, s, "corpus");
+    }
+    for s in ["5 YEAR", "1-6 YEAR TO MONTH", "5 12:30:45 DAY TO SECOND", "30 DAY", "12:30:45 HOUR TO SECOND", "24 HOUR", "1.5 SECOND", "0 DAY", "1 MONTH", "90 MINUTE", "1 year", "5 DAY TO HOUR"] {
+        interval_roundtrip(&mut cx, s);
+    }
+
+    // Unicode tables the model relies on, checked against the real `char` methods for every scalar value
+    let mut ws_real: Vec<char> = vec![];
+    let mut upper_ascii: Vec<(char, String)> = vec![];
+    for cp in 0u32..=0x10ffff {
+        if let Some(c) = char::from_u32(cp) {
+            if c.is_whitespace() {
+                ws_real.push(c);
+            }
+            let u: String = c.to_uppercase().collect();
+            if u.is_ascii() && u.chars().any(|x| x.is_ascii_alphabetic()) {
+                upper_ascii.push((c, u));
+            }
+        }
+    }
+    cx.rep.extra.insert("unicode_whitespace_chars_in_std".into(), serde_json::json!(ws_real.len()));
+    cx.rep.extra.insert("chars_with_ascii_uppercase_in_std".into(), serde_json::json!(upper_ascii.len()));
+    let mut ws_probe: Vec<char> = vec![];
+    for c in &ws_real {
+        for d in [-1i32, 0, 1] {
+            if let Some(x) = char::from_u32((*c as i32 + d) as u32) {
+                ws_probe.push(x);
+            }
+        }
+    }
+    ws_probe.extend(['\u{180e}', '\u{200b}', '\u{2060}', '\u{feff}', '\u{1f}', '\u{7f}', 'é', '\u{2800}']);
+    for c in ws_probe {
+        parse_case(&mut cx, K::Interval, &format!("7{}DAY", c), "whitespace_table");
+        parse_case(&mut cx, K::Ts, &format!("{}2024-01-01{}10:00:00{}", c, c, c), "whitespace_table");
+    }
+    let kws = ["YEAR", "MONTHS", "DAY", "HOURS", "MINUTE", "SECONDS"];
+    for (c, u) in &upper_ascii {
+        for kwd in kws {
+            // put `c` where its uppercase expansion occurs in the keyword, and at position 0
+            let mut texts = vec![format!("3 {}{}", c, &kwd[1..])];
+            if let Some(p) = kwd.find(u.as_str()) {
+                texts.push(format!("3 {}{}{}", &kwd[..p], c, &kwd[p + u.len()..]));
+            }
+            for t in texts {
+                parse_case(&mut cx, K::Interval, &t, "uppercase_table");
+            }
+        }
+    }
+
+    // ------------------------------------------------------------ round trips
+    let years: Vec<i32> = vec![i32::MIN, i32::MIN + 1, -100000000, -99999999, -10000, -9999, -1000, -999, -100, -99, -10, -9, -1, 0, 1, 9, 10, 99, 100, 999, 1000, 1999, 2024, 9999, 10000, 99999, 9999999, 10000000, 99999999, 100000000, 999999999, 1000000000, i32::MAX - 1, i32::MAX];
+    let months: Vec<u8> = vec![0, 1, 2, 9, 10, 11, 12, 13, 255];
+    let days: Vec<u8> = vec![0, 1, 2, 9, 10, 28, 29, 30, 31, 32, 255];
+    for &y in &years {
+        for &m in &months {
+            for &d in &days {
+                date_roundtrip(&mut cx, y, m, d);
+            }
+        }
+    }
+    let hours: Vec<u8> = vec![0, 1, 9, 10, 12, 23, 24, 255];
+    let mins: Vec<u8> = vec![0, 1, 9, 10, 59, 60];
+    let nanos: Vec<u32> = vec![0, 1, 9, 10, 100, 1000, 123456789, 100000000, 500000000, 120000000, 999999999, 999999990, 999000000, 1000000, 1000000000, u32::MAX, 10, 20300];
+    for &h in &hours {
+        for &mi in &mins {
+            for &s in &mins {
+                for &n in &nanos {
+                    if (h == 23 || mi == 59 || s == 59 || n > 999999000 || (h as u32 + mi as u32 + s as u32) % 3 == 0) || n < 11 {
+                        time_roundtrip(&mut cx, h, mi, s, n);
+                    }
+                }
+            }
+        }
+    }
+    for &y in &years {
+        for (m, d) in [(1u8, 1u8), (12, 31), (2, 29)] {
+            for t in [(0u8, 0u8, 0u8, 0u32), (23, 59, 59, 999999999), (1, 2, 3, 400000000), (12, 0, 0, 1)] {
+                ts_roundtrip(&mut cx, (y, m, d), t);
+            }
+        }
+    }
+    let n_rt = args.n(6000, 150000);
+    for _ in 0..n_rt {
+        let y = match rng.below(3) {
+            0 => rng.range(1, 9999) as i32,
+            1 => rng.next() as i32,
+            _ => rng.range(-20000, 20000) as i32,
+        };
+        let d = (y, rng.range(1, 12) as u8, rng.range(1, 31) as u8);
+        let n = match rng.below(4) {
+            0 => 0,
+            1 => rng.below(1_000_000_000) as u32,
+            2 => (rng.below(1000) * 1_000_000) as u32,
+            _ => (rng.below(10) * 100_000_000) as u32,
+        };
+        let t = (rng.range(0, 23) as u8, rng.range(0, 59) as u8, rng.range(0, 59) as u8, n);
+        match rng.below(3) {
+            0 => date_roundtrip(&mut cx, d.0, d.1, d.2),
+            1 => time_roundtrip(&mut cx, t.0, t.1, t.2, t.3),
+            _ => ts_roundtrip(&mut cx, d, t),
+        }
+    }
+
+    // ------------------------------------------------------------ generated strings (totality + correspondence)
+    let n_gen = args.n(60000, 1500000);
+    let mut first_mut_samples = 0;
+    for i in 0..n_gen {
+        let k = [K::Date, K::Time, K::Ts, K::Interval, K::Interval][(i % 5) as usize];
+        let (text, kind) = if rng.chance(1, 12) { (random_soup(&mut rng), "random_soup".to_string()) } else { build(&mut rng, k) };
+        cx.rep.count(&format!("mutation_{}", kind));
+        let real = parse_case(&mut cx, k, &text, "generated");
+        if k == K::Interval && rng.chance(1, 4) {
+            interval_roundtrip(&mut cx, &text);
+        }
+        if first_mut_samples < 3 && !text.is_ascii() {
+            first_mut_samples += 1;
+            cx.rep.sample(serde_json::json!({"kind": k.name(), "text": text, "real": real, "mutation": kind}));
+        }
+    }
+
+    cx.rep.assumptions.push("inputs are Rust &str, i.e. valid UTF-8; the model works on their bytes".into());
+    cx.rep.assumptions.push("the harness is built with overflow-checks = true, so an unchecked integer overflow in a parser would surface as a panic".into());
+    cx.rep.assumptions.push("Interval's three private numbers are read from its derived Debug output".into());
+    std::process::exit(cx.rep.finish());
 }
